@@ -86,7 +86,22 @@ func (r *Run) TolerantScan() (errored bool) {
 			if i >= 0 && i < len(exp) {
 				e = pstr(exp[i], true)
 			}
-			r.fail("wrong-result-under-faults", "scan %v under injected faults: position %d got %s, model %s", mo, i, pstr(got, true), e)
+			// second look through a fresh iterator: is the wrong result persistent?
+			second := "n/a"
+			if it2, err2 := r.db.NewIter(r.toPebbleOpts(mo, false)); err2 == nil {
+				var ps []string
+				for ok2 := it2.First(); ok2; ok2 = it2.Next() {
+					ps = append(ps, pstr(ReadPos(it2), true))
+				}
+				second = fmt.Sprintf("%v (err %v)", ps, it2.Error())
+				it2.Close()
+			}
+			var want []string
+			for _, p := range exp {
+				want = append(want, pstr(p, true))
+			}
+			r.fail("wrong-result-under-faults", "scan %v under injected faults: position %d got %s, model %s (iterator Error() at that point: %v; Valid()=%v)\nsecond look with a fresh iterator: %s\nmodel: %v\nLSM:\n%s",
+				mo, i, pstr(got, true), e, it.Error(), it.Valid(), second, want, r.db.DebugString())
 			return false
 		}
 		r.count("faulted_scan_positions_compared", 1)
